@@ -56,31 +56,31 @@ func TestVerif(t *testing.T) {
 // ---------------------------------------------------------------------------------------------
 // generated raw configuration (strings as they appear in the TOML document)
 
-type gPrefix struct {
+type vfGPrefix struct {
 	prefix             string
 	onLink, autonomous *bool
 	valid, preferred   *string
 	deprecated         bool
 }
 
-type gRoute struct {
+type vfGRoute struct {
 	prefix     string
 	preference string
 	lifetime   *string
 	deprecated bool
 }
 
-type gRDNSS struct {
+type vfGRDNSS struct {
 	lifetime *string
 	servers  []string
 }
 
-type gDNSSL struct {
+type vfGDNSSL struct {
 	lifetime *string
 	names    []string
 }
 
-type gIface struct {
+type vfGIface struct {
 	name                         string
 	names                        []string
 	monitor, advertise, verbose  bool
@@ -91,18 +91,18 @@ type gIface struct {
 	defaultLifetime              *string
 	unicastOnly                  bool
 	preference                   string
-	prefixes                     []gPrefix
-	routes                       []gRoute
-	rdnss                        []gRDNSS
-	dnssl                        []gDNSSL
+	prefixes                     []vfGPrefix
+	routes                       []vfGRoute
+	rdnss                        []vfGRDNSS
+	dnssl                        []vfGDNSSL
 	pref64                       []*string
 	mtu                          int
 	sourceLLA                    *bool
 	captivePortal                string
 }
 
-type gConfig struct {
-	ifaces      []gIface
+type vfGConfig struct {
+	ifaces      []vfGIface
 	debugAddr   string
 	// padBefore / padBetween: kilobytes of comment lines before the first stanza / between the
 	// interface stanzas (a long, well-commented file: what is accepted does not depend on its size)
@@ -110,7 +110,7 @@ type gConfig struct {
 	prom, pprof bool
 }
 
-func q(s string) string {
+func vfQ(s string) string {
 	var sb strings.Builder
 	sb.WriteByte('"')
 	for _, c := range s {
@@ -128,15 +128,15 @@ func q(s string) string {
 	return sb.String()
 }
 
-func qs(ss []string) string {
+func vfQs(ss []string) string {
 	out := make([]string, len(ss))
 	for i, s := range ss {
-		out[i] = q(s)
+		out[i] = vfQ(s)
 	}
 	return "[" + strings.Join(out, ", ") + "]"
 }
 
-func (c gConfig) toml() string {
+func (c vfGConfig) toml() string {
 	var sb strings.Builder
 	pad := func(kb int) {
 		for n := 0; n < kb*1024; n += 64 {
@@ -150,10 +150,10 @@ func (c gConfig) toml() string {
 		}
 		sb.WriteString("[[interfaces]]\n")
 		if i.name != "" {
-			fmt.Fprintf(&sb, "name = %s\n", q(i.name))
+			fmt.Fprintf(&sb, "name = %s\n", vfQ(i.name))
 		}
 		if i.names != nil {
-			fmt.Fprintf(&sb, "names = %s\n", qs(i.names))
+			fmt.Fprintf(&sb, "names = %s\n", vfQs(i.names))
 		}
 		wb := func(k string, v bool) {
 			if v {
@@ -162,7 +162,7 @@ func (c gConfig) toml() string {
 		}
 		ws := func(k, v string) {
 			if v != "" {
-				fmt.Fprintf(&sb, "%s = %s\n", k, q(v))
+				fmt.Fprintf(&sb, "%s = %s\n", k, vfQ(v))
 			}
 		}
 		wb("monitor", i.monitor)
@@ -178,7 +178,7 @@ func (c gConfig) toml() string {
 			fmt.Fprintf(&sb, "hop_limit = %d\n", *i.hopLimit)
 		}
 		if i.defaultLifetime != nil {
-			fmt.Fprintf(&sb, "default_lifetime = %s\n", q(*i.defaultLifetime))
+			fmt.Fprintf(&sb, "default_lifetime = %s\n", vfQ(*i.defaultLifetime))
 		}
 		wb("unicast_only", i.unicastOnly)
 		ws("preference", i.preference)
@@ -192,7 +192,7 @@ func (c gConfig) toml() string {
 		for _, p := range i.prefixes {
 			sb.WriteString("  [[interfaces.prefix]]\n")
 			if p.prefix != "" {
-				fmt.Fprintf(&sb, "  prefix = %s\n", q(p.prefix))
+				fmt.Fprintf(&sb, "  prefix = %s\n", vfQ(p.prefix))
 			}
 			if p.onLink != nil {
 				fmt.Fprintf(&sb, "  on_link = %v\n", *p.onLink)
@@ -201,10 +201,10 @@ func (c gConfig) toml() string {
 				fmt.Fprintf(&sb, "  autonomous = %v\n", *p.autonomous)
 			}
 			if p.valid != nil {
-				fmt.Fprintf(&sb, "  valid_lifetime = %s\n", q(*p.valid))
+				fmt.Fprintf(&sb, "  valid_lifetime = %s\n", vfQ(*p.valid))
 			}
 			if p.preferred != nil {
-				fmt.Fprintf(&sb, "  preferred_lifetime = %s\n", q(*p.preferred))
+				fmt.Fprintf(&sb, "  preferred_lifetime = %s\n", vfQ(*p.preferred))
 			}
 			if p.deprecated {
 				sb.WriteString("  deprecated = true\n")
@@ -213,13 +213,13 @@ func (c gConfig) toml() string {
 		for _, r := range i.routes {
 			sb.WriteString("  [[interfaces.route]]\n")
 			if r.prefix != "" {
-				fmt.Fprintf(&sb, "  prefix = %s\n", q(r.prefix))
+				fmt.Fprintf(&sb, "  prefix = %s\n", vfQ(r.prefix))
 			}
 			if r.preference != "" {
-				fmt.Fprintf(&sb, "  preference = %s\n", q(r.preference))
+				fmt.Fprintf(&sb, "  preference = %s\n", vfQ(r.preference))
 			}
 			if r.lifetime != nil {
-				fmt.Fprintf(&sb, "  lifetime = %s\n", q(*r.lifetime))
+				fmt.Fprintf(&sb, "  lifetime = %s\n", vfQ(*r.lifetime))
 			}
 			if r.deprecated {
 				sb.WriteString("  deprecated = true\n")
@@ -228,32 +228,32 @@ func (c gConfig) toml() string {
 		for _, r := range i.rdnss {
 			sb.WriteString("  [[interfaces.rdnss]]\n")
 			if r.lifetime != nil {
-				fmt.Fprintf(&sb, "  lifetime = %s\n", q(*r.lifetime))
+				fmt.Fprintf(&sb, "  lifetime = %s\n", vfQ(*r.lifetime))
 			}
 			if r.servers != nil {
-				fmt.Fprintf(&sb, "  servers = %s\n", qs(r.servers))
+				fmt.Fprintf(&sb, "  servers = %s\n", vfQs(r.servers))
 			}
 		}
 		for _, d := range i.dnssl {
 			sb.WriteString("  [[interfaces.dnssl]]\n")
 			if d.lifetime != nil {
-				fmt.Fprintf(&sb, "  lifetime = %s\n", q(*d.lifetime))
+				fmt.Fprintf(&sb, "  lifetime = %s\n", vfQ(*d.lifetime))
 			}
 			if d.names != nil {
-				fmt.Fprintf(&sb, "  domain_names = %s\n", qs(d.names))
+				fmt.Fprintf(&sb, "  domain_names = %s\n", vfQs(d.names))
 			}
 		}
 		for _, p := range i.pref64 {
 			sb.WriteString("  [[interfaces.pref64]]\n")
 			if p != nil {
-				fmt.Fprintf(&sb, "  prefix = %s\n", q(*p))
+				fmt.Fprintf(&sb, "  prefix = %s\n", vfQ(*p))
 			}
 		}
 	}
 	if c.debugAddr != "" || c.prom || c.pprof {
 		sb.WriteString("[debug]\n")
 		if c.debugAddr != "" {
-			fmt.Fprintf(&sb, "address = %s\n", q(c.debugAddr))
+			fmt.Fprintf(&sb, "address = %s\n", vfQ(c.debugAddr))
 		}
 		if c.prom {
 			sb.WriteString("prometheus = true\n")
@@ -268,16 +268,16 @@ func (c gConfig) toml() string {
 // ---------------------------------------------------------------------------------------------
 // interning and token encoding of the raw view (external parser results included)
 
-type interner = vfh.Interner
+type vfInterner = vfh.Interner
 
-type enc struct {
+type vfEnc struct {
 	t     *vfh.Toks
-	names interner // interface names
-	doms  interner // DNS search domains
-	uris  interner
+	names vfInterner // interface names
+	doms  vfInterner // DNS search domains
+	uris  vfInterner
 }
 
-func (e *enc) durPtr(s *string) {
+func (e *vfEnc) durPtr(s *string) {
 	switch {
 	case s == nil:
 		e.t.S("U")
@@ -292,7 +292,7 @@ func (e *enc) durPtr(s *string) {
 	}
 }
 
-func (e *enc) durLit(s string) {
+func (e *vfEnc) durLit(s string) {
 	d, err := time.ParseDuration(s)
 	if err != nil {
 		e.t.S("X")
@@ -301,7 +301,7 @@ func (e *enc) durLit(s string) {
 	e.t.S("L").I(int64(d))
 }
 
-func (e *enc) durPlain(s string) {
+func (e *vfEnc) durPlain(s string) {
 	if s == "" {
 		e.t.S("E")
 		return
@@ -309,7 +309,7 @@ func (e *enc) durPlain(s string) {
 	e.durLit(s)
 }
 
-func (e *enc) durMin(s string) {
+func (e *vfEnc) durMin(s string) {
 	switch s {
 	case "":
 		e.t.S("E")
@@ -320,7 +320,7 @@ func (e *enc) durMin(s string) {
 	}
 }
 
-func (e *enc) pfx(s string) {
+func (e *vfEnc) pfx(s string) {
 	if s == "" {
 		e.t.S("E")
 		return
@@ -333,7 +333,7 @@ func (e *enc) pfx(s string) {
 	e.t.S("P").Prefix(p)
 }
 
-func (e *enc) optBool(b *bool) {
+func (e *vfEnc) optBool(b *bool) {
 	switch {
 	case b == nil:
 		e.t.S("U")
@@ -344,7 +344,7 @@ func (e *enc) optBool(b *bool) {
 	}
 }
 
-func prefCode(s string) int {
+func vfPrefCode(s string) int {
 	switch s {
 	case "":
 		return 0
@@ -358,7 +358,7 @@ func prefCode(s string) int {
 	return 9
 }
 
-func (e *enc) iface(i gIface) {
+func (e *vfEnc) iface(i vfGIface) {
 	t := e.t
 	t.N(e.names.ID(i.name)).N(len(i.names))
 	for _, n := range i.names {
@@ -381,7 +381,7 @@ func (e *enc) iface(i gIface) {
 		t.S("V").N(*i.hopLimit)
 	}
 	e.durPtr(i.defaultLifetime)
-	t.B(i.unicastOnly).N(prefCode(i.preference))
+	t.B(i.unicastOnly).N(vfPrefCode(i.preference))
 	t.N(len(i.prefixes))
 	for _, p := range i.prefixes {
 		e.pfx(p.prefix)
@@ -394,7 +394,7 @@ func (e *enc) iface(i gIface) {
 	t.N(len(i.routes))
 	for _, r := range i.routes {
 		e.pfx(r.prefix)
-		t.N(prefCode(r.preference))
+		t.N(vfPrefCode(r.preference))
 		e.durPtr(r.lifetime)
 		t.B(r.deprecated)
 	}
@@ -441,7 +441,7 @@ func (e *enc) iface(i gIface) {
 	}
 }
 
-func debugCode(addr string) int {
+func vfDebugCode(addr string) int {
 	if addr == "" {
 		return 0
 	}
@@ -454,7 +454,7 @@ func debugCode(addr string) int {
 // ---------------------------------------------------------------------------------------------
 // token encoding of the parsed configuration and of RAs
 
-func (e *enc) plugin(t *vfh.Toks, p plugin.Plugin) {
+func (e *vfEnc) plugin(t *vfh.Toks, p plugin.Plugin) {
 	switch p := p.(type) {
 	case *plugin.Prefix:
 		t.N(0).B(p.Auto).Prefix(p.Prefix).B(p.OnLink).B(p.Autonomous).I(int64(p.ValidLifetime)).I(int64(p.PreferredLifetime)).B(p.Deprecated)
@@ -483,7 +483,7 @@ func (e *enc) plugin(t *vfh.Toks, p plugin.Plugin) {
 	}
 }
 
-func (e *enc) parsedIface(t *vfh.Toks, i Interface) {
+func (e *vfEnc) parsedIface(t *vfh.Toks, i Interface) {
 	name := i.Name
 	if name == "" {
 		name = "\x00empty"
@@ -496,34 +496,34 @@ func (e *enc) parsedIface(t *vfh.Toks, i Interface) {
 	}
 }
 
-func macToks(t *vfh.Toks, mac net.HardwareAddr) { t.MAC(mac) }
+func vfMacToks(t *vfh.Toks, mac net.HardwareAddr) { t.MAC(mac) }
 
-func (e *enc) ra(t *vfh.Toks, ra *ndp.RouterAdvertisement) { t.RA(ra, &e.doms, &e.uris) }
+func (e *vfEnc) ra(t *vfh.Toks, ra *ndp.RouterAdvertisement) { t.RA(ra, &e.doms, &e.uris) }
 
 // ---------------------------------------------------------------------------------------------
 // value generators
 
-func sp(s string) *string { return &s }
-func bp(b bool) *bool     { return &b }
-func ip(i int) *int       { return &i }
+func vfSp(s string) *string { return &s }
+func vfBp(b bool) *bool     { return &b }
+func vfIp(i int) *int       { return &i }
 
-var durGarbage = []string{"abc", "10", "1 s", "s", "1d", "--1s", "1e3s", "٣s"}
+var vfDurGarbage = []string{"abc", "10", "1 s", "s", "1d", "--1s", "1e3s", "٣s"}
 
 // durAround renders limit-1ns, limit, limit+1ns, limit±1s as strings.
-func durAround(r *vfh.Rand, limit time.Duration) string {
+func vfDurAround(r *vfh.Rand, limit time.Duration) string {
 	d := limit + vfh.Pick(r, []time.Duration{-time.Second, -1, 0, 0, 1, time.Second})
 	return d.String()
 }
 
 // genDurStr produces a duration string; kinds are weighted towards valid values.
-func genDurStr(r *vfh.Rand, lo, hi time.Duration, special bool) string {
+func vfGenDurStr(r *vfh.Rand, lo, hi time.Duration, special bool) string {
 	switch r.Intn(14) {
 	case 0:
-		return durAround(r, lo)
+		return vfDurAround(r, lo)
 	case 1:
-		return durAround(r, hi)
+		return vfDurAround(r, hi)
 	case 2:
-		return vfh.Pick(r, durGarbage)
+		return vfh.Pick(r, vfDurGarbage)
 	case 3:
 		return (-time.Duration(r.Range(1, int64(time.Hour)))).String()
 	case 4: // very large
@@ -544,36 +544,36 @@ func genDurStr(r *vfh.Rand, lo, hi time.Duration, special bool) string {
 	}
 }
 
-var prefixPool = []string{
+var vfPrefixPool = []string{
 	"2001:db8::/64", "2001:db8:0:1::/64", "2001:db8::/48", "2001:db8:1::/48", "2001:db8::/32", "fd00::/8",
 	"fd00:1::/64", "fd00:2::/64", "fd00:3::/56", "2600:1::/64", "::/64", "::/64", "",
 }
 
-var prefixBad = []string{
+var vfPrefixBad = []string{
 	"2001:db8::1/64", "2001:db8::1/128", "2001:db8::/128", "::/0", "::/63", "::/128", "10.0.0.0/8", "192.0.2.0/24",
 	"::ffff:0.0.0.0/96", "::ffff:1.2.3.4/128", "2001:db8::/129", "foo", "2001:db8::", "fe80::/10", "::/1", "::1/128", "2001:db8::%eth0/64",
 }
 
-var routePool = []string{
+var vfRoutePool = []string{
 	"2001:db8:100::/48", "2001:db8:100:1::/64", "2001:db8:200::/48", "2001:db8:300::/40", "fd00:100::/32",
 	"2001:db8:9::1/128", "::/0", "::/0", "", "2000::/3", "fc00::/7",
 }
 
-var serverPool = []string{
+var vfServerPool = []string{
 	"2001:db8::53", "2001:db8::54", "fd00::53", "fe80::1", "::", "::", "2001:4860:4860::8888", "::1",
 	"fe80::1%eth0", "fe80::1%eth1", "fe80::53%eth0", "::%eth0", // zones are not part of what an RA carries
 }
 
-var serverBad = []string{"8.8.8.8", "::ffff:8.8.8.8", "foo", "2001:db8::53/64", ""}
+var vfServerBad = []string{"8.8.8.8", "::ffff:8.8.8.8", "foo", "2001:db8::53/64", ""}
 
-var domPool = []string{"example.com", "lan.example.com", "home.arpa", "corp.example", "a.b.c.example.org", "x"}
+var vfDomPool = []string{"example.com", "lan.example.com", "home.arpa", "corp.example", "a.b.c.example.org", "x"}
 
-var pref64Pool = []string{"64:ff9b::/96", "2001:db8:64::/96", "2001:db8:64::/64", "2001:db8:64::/56", "2001:db8:64::/48", "2001:db8::/40", "2001:db8::/32", ""}
+var vfPref64Pool = []string{"64:ff9b::/96", "2001:db8:64::/96", "2001:db8:64::/64", "2001:db8:64::/56", "2001:db8:64::/48", "2001:db8::/40", "2001:db8::/32", ""}
 
-var pref64Bad = []string{"2001:db8::/33", "2001:db8::/95", "2001:db8::/97", "2001:db8::/128", "::/0", "10.0.0.0/8", "10.0.0.0/32", "1.2.3.4/32",
+var vfPref64Bad = []string{"2001:db8::/33", "2001:db8::/95", "2001:db8::/97", "2001:db8::/128", "::/0", "10.0.0.0/8", "10.0.0.0/32", "1.2.3.4/32",
 	"2001:db8::1/96", "64:ff9b::1.2.3.4/96", "::ffff:0.0.0.0/96", "foo", "2001:db8::/72", "2001:db8::/31"}
 
-func uriOfLen(n int) string {
+func vfUriOfLen(n int) string {
 	base := "https://portal.example/"
 	if n <= len(base) {
 		return "urn:x"
@@ -584,7 +584,7 @@ func uriOfLen(n int) string {
 // uriEscOfLen: a URI of n bytes as written whose path holds a space and a non-ASCII letter —
 // ndp.NewCaptivePortal percent-encodes both, so the option carries more bytes (n + 2 + 4) than the
 // configuration string has
-func uriEscOfLen(n int) string {
+func vfUriEscOfLen(n int) string {
 	base := "https://portal.example/a b/acc\u00e8s/"
 	if n <= len(base) {
 		return base
@@ -592,30 +592,30 @@ func uriEscOfLen(n int) string {
 	return base + strings.Repeat("a", n-len(base))
 }
 
-func genLifetimePtr(r *vfh.Rand, valid int) *string {
+func vfGenLifetimePtr(r *vfh.Rand, valid int) *string {
 	// valid: percentage of "plain valid" choices
 	if r.Intn(100) < valid {
 		switch r.Intn(5) {
 		case 0:
 			return nil
 		case 1:
-			return sp("auto")
+			return vfSp("auto")
 		case 2:
-			return sp((time.Duration(r.Range(1, 100000)) * time.Second).String())
+			return vfSp((time.Duration(r.Range(1, 100000)) * time.Second).String())
 		case 3:
-			return sp(time.Duration(r.Range(1, int64(72*time.Hour))).String())
+			return vfSp(time.Duration(r.Range(1, int64(72*time.Hour))).String())
 		default:
-			return sp("infinite")
+			return vfSp("infinite")
 		}
 	}
-	return sp(genDurStr(r, 0, ndp.Infinity, true))
+	return vfSp(vfGenDurStr(r, 0, ndp.Infinity, true))
 }
 
 // genIface generates one interface stanza.  `valid` is the percentage of fields drawn from
 // the valid stream (the rest from the boundary/invalid streams).
-func genIface(r *vfh.Rand, name string, valid int, small bool) gIface {
+func vfGenIface(r *vfh.Rand, name string, valid int, small bool) vfGIface {
 	ok := func() bool { return r.Intn(100) < valid }
-	i := gIface{name: name, advertise: r.Chance(5, 6), verbose: r.Chance(1, 8)}
+	i := vfGIface{name: name, advertise: r.Chance(5, 6), verbose: r.Chance(1, 8)}
 	if r.Chance(1, 12) {
 		i.monitor = true
 		i.advertise = !ok() && r.Chance(1, 2)
@@ -629,7 +629,7 @@ func genIface(r *vfh.Rand, name string, valid int, small bool) gIface {
 			i.maxInterval = time.Duration(r.Range(int64(4*time.Second), int64(1800*time.Second))).String()
 		}
 	default:
-		i.maxInterval = genDurStr(r, 4*time.Second, 1800*time.Second, false)
+		i.maxInterval = vfGenDurStr(r, 4*time.Second, 1800*time.Second, false)
 	}
 	max := 600 * time.Second
 	if d, err := time.ParseDuration(i.maxInterval); err == nil {
@@ -643,47 +643,47 @@ func genIface(r *vfh.Rand, name string, valid int, small bool) gIface {
 	case ok() && upper >= 3*time.Second:
 		i.minInterval = (time.Duration(r.Range(3, int64(upper/time.Second))) * time.Second).String()
 	default:
-		i.minInterval = genDurStr(r, 3*time.Second, upper, false)
+		i.minInterval = vfGenDurStr(r, 3*time.Second, upper, false)
 	}
 	i.managed, i.otherConfig, i.unicastOnly = r.Chance(1, 3), r.Chance(1, 3), r.Chance(1, 6)
 	if r.Chance(1, 3) {
 		if ok() {
 			i.reachable = time.Duration(r.Range(0, int64(time.Hour))).String()
 		} else {
-			i.reachable = genDurStr(r, 0, time.Hour, false)
+			i.reachable = vfGenDurStr(r, 0, time.Hour, false)
 		}
 	}
 	if r.Chance(1, 3) {
 		if ok() {
 			i.retransmit = time.Duration(r.Range(0, int64(time.Hour))).String()
 		} else {
-			i.retransmit = genDurStr(r, 0, time.Hour, false)
+			i.retransmit = vfGenDurStr(r, 0, time.Hour, false)
 		}
 	}
 	if r.Chance(1, 3) {
 		if ok() {
-			i.hopLimit = ip(r.Intn(256))
+			i.hopLimit = vfIp(r.Intn(256))
 		} else {
-			i.hopLimit = ip(vfh.Pick(r, []int{-1, 0, 255, 256, 1000, -300}))
+			i.hopLimit = vfIp(vfh.Pick(r, []int{-1, 0, 255, 256, 1000, -300}))
 		}
 	}
 	if r.Chance(1, 2) {
 		switch {
 		case r.Chance(1, 5):
-			i.defaultLifetime = sp("auto")
+			i.defaultLifetime = vfSp("auto")
 		case r.Chance(1, 6):
-			i.defaultLifetime = sp("")
+			i.defaultLifetime = vfSp("")
 		case r.Chance(1, 8):
-			i.defaultLifetime = sp("0s")
+			i.defaultLifetime = vfSp("0s")
 		case ok():
 			if max <= 9000*time.Second {
-				i.defaultLifetime = sp(time.Duration(r.Range(int64(max), int64(9000*time.Second))).String())
+				i.defaultLifetime = vfSp(time.Duration(r.Range(int64(max), int64(9000*time.Second))).String())
 			}
 		default:
 			if r.Bool() {
-				i.defaultLifetime = sp(durAround(r, max))
+				i.defaultLifetime = vfSp(vfDurAround(r, max))
 			} else {
-				i.defaultLifetime = sp(genDurStr(r, max, 9000*time.Second, true))
+				i.defaultLifetime = vfSp(vfGenDurStr(r, max, 9000*time.Second, true))
 			}
 		}
 	}
@@ -700,17 +700,17 @@ func genIface(r *vfh.Rand, name string, valid int, small bool) gIface {
 	disjointP := []string{"2001:db8:0:1::/64", "2001:db8:0:2::/64", "fd00:1::/64", "fd00:2::/64", "2600:1::/64", "::/64", "2001:db8:a000::/56"}
 	vfh.Shuffle(r, disjointP)
 	for k := r.Intn(nmax); k > 0; k-- {
-		p := gPrefix{prefix: vfh.Pick(r, prefixPool), deprecated: r.Chance(1, 4)}
+		p := vfGPrefix{prefix: vfh.Pick(r, vfPrefixPool), deprecated: r.Chance(1, 4)}
 		if ok() {
 			p.prefix = disjointP[k]
 		} else if r.Chance(1, 2) {
-			p.prefix = vfh.Pick(r, prefixBad)
+			p.prefix = vfh.Pick(r, vfPrefixBad)
 		}
 		if r.Chance(1, 3) {
-			p.onLink = bp(r.Bool())
+			p.onLink = vfBp(r.Bool())
 		}
 		if r.Chance(1, 3) {
-			p.autonomous = bp(r.Bool())
+			p.autonomous = vfBp(r.Bool())
 		}
 		if ok() {
 			// valid lifetimes with preferred <= valid
@@ -725,25 +725,25 @@ func genIface(r *vfh.Rand, name string, valid int, small bool) gIface {
 				if v < 4*time.Hour {
 					v += 4 * time.Hour // the default preferred lifetime is 4 h
 				}
-				p.valid = sp(v.String())
+				p.valid = vfSp(v.String())
 			case 2:
-				p.valid, p.preferred = sp(v.String()), sp(pf.String())
+				p.valid, p.preferred = vfSp(v.String()), vfSp(pf.String())
 			case 3:
-				p.valid = sp("infinite")
+				p.valid = vfSp("infinite")
 				if r.Bool() {
-					p.preferred = sp("infinite")
+					p.preferred = vfSp("infinite")
 				}
 				p.deprecated = false
 			case 4:
-				p.valid, p.preferred = sp("auto"), sp("auto")
+				p.valid, p.preferred = vfSp("auto"), vfSp("auto")
 			default:
-				p.valid, p.preferred = sp(v.String()), sp(v.String())
+				p.valid, p.preferred = vfSp(v.String()), vfSp(v.String())
 			}
 		} else {
-			p.valid, p.preferred = genLifetimePtr(r, 40), genLifetimePtr(r, 40)
+			p.valid, p.preferred = vfGenLifetimePtr(r, 40), vfGenLifetimePtr(r, 40)
 			if r.Chance(1, 3) { // preferred = valid ± 1ns
 				v := time.Duration(r.Range(2, int64(48*time.Hour)))
-				p.valid, p.preferred = sp(v.String()), sp((v + vfh.Pick(r, []time.Duration{-1, 0, 1})).String())
+				p.valid, p.preferred = vfSp(v.String()), vfSp((v + vfh.Pick(r, []time.Duration{-1, 0, 1})).String())
 			}
 		}
 		i.prefixes = append(i.prefixes, p)
@@ -752,7 +752,7 @@ func genIface(r *vfh.Rand, name string, valid int, small bool) gIface {
 	disjointR := []string{"2001:db8:100::/48", "2001:db8:200::/48", "2001:db8:300::/40", "fd00:100::/32", "2001:db8:9::1/128", "::/0", ""}
 	vfh.Shuffle(r, disjointR)
 	for k := r.Intn(nmax); k > 0; k-- {
-		rt := gRoute{prefix: vfh.Pick(r, routePool), preference: vfh.Pick(r, []string{"", "low", "medium", "high"}), deprecated: r.Chance(1, 4)}
+		rt := vfGRoute{prefix: vfh.Pick(r, vfRoutePool), preference: vfh.Pick(r, []string{"", "low", "medium", "high"}), deprecated: r.Chance(1, 4)}
 		if ok() {
 			rt.prefix = disjointR[k]
 		} else if r.Chance(1, 2) {
@@ -761,7 +761,7 @@ func genIface(r *vfh.Rand, name string, valid int, small bool) gIface {
 		if !ok() && r.Chance(1, 4) {
 			rt.preference = "urgent"
 		}
-		rt.lifetime = genLifetimePtr(r, valid)
+		rt.lifetime = vfGenLifetimePtr(r, valid)
 		if ok() && rt.lifetime != nil && *rt.lifetime == "infinite" {
 			rt.deprecated = false
 		}
@@ -769,15 +769,15 @@ func genIface(r *vfh.Rand, name string, valid int, small bool) gIface {
 	}
 	// RDNSS
 	for k := r.Intn(nmax); k > 0; k-- {
-		d := gRDNSS{lifetime: genLifetimePtr(r, valid)}
+		d := vfGRDNSS{lifetime: vfGenLifetimePtr(r, valid)}
 		if d.lifetime != nil && *d.lifetime == "infinite" && r.Bool() {
-			d.lifetime = sp("") // zero lifetime is allowed for RDNSS
+			d.lifetime = vfSp("") // zero lifetime is allowed for RDNSS
 		}
 		ns := r.Intn(4)
 		for j := 0; j < ns; j++ {
-			s := vfh.Pick(r, serverPool)
+			s := vfh.Pick(r, vfServerPool)
 			if !ok() && r.Chance(1, 3) {
-				s = vfh.Pick(r, serverBad)
+				s = vfh.Pick(r, vfServerBad)
 			}
 			d.servers = append(d.servers, s)
 		}
@@ -799,7 +799,7 @@ func genIface(r *vfh.Rand, name string, valid int, small bool) gIface {
 	}
 	// DNSSL
 	for k := r.Intn(nmax); k > 0; k-- {
-		d := gDNSSL{lifetime: genLifetimePtr(r, valid)}
+		d := vfGDNSSL{lifetime: vfGenLifetimePtr(r, valid)}
 		nn := 1 + r.Intn(3)
 		if !ok() && r.Chance(1, 3) {
 			nn = 0
@@ -807,7 +807,7 @@ func genIface(r *vfh.Rand, name string, valid int, small bool) gIface {
 		perm := []int{0, 1, 2, 3, 4, 5}
 		vfh.Shuffle(r, perm)
 		for j := 0; j < nn; j++ {
-			d.names = append(d.names, domPool[perm[j]])
+			d.names = append(d.names, vfDomPool[perm[j]])
 		}
 		if !ok() && nn > 0 && r.Chance(1, 3) {
 			d.names = append(d.names, d.names[0])
@@ -824,9 +824,9 @@ func genIface(r *vfh.Rand, name string, valid int, small bool) gIface {
 		case r.Chance(1, 4):
 			i.pref64 = append(i.pref64, nil)
 		case ok():
-			i.pref64 = append(i.pref64, sp(vfh.Pick(r, pref64Pool)))
+			i.pref64 = append(i.pref64, vfSp(vfh.Pick(r, vfPref64Pool)))
 		default:
-			i.pref64 = append(i.pref64, sp(vfh.Pick(r, pref64Bad)))
+			i.pref64 = append(i.pref64, vfSp(vfh.Pick(r, vfPref64Bad)))
 		}
 	}
 	if r.Chance(1, 3) {
@@ -837,24 +837,24 @@ func genIface(r *vfh.Rand, name string, valid int, small bool) gIface {
 		}
 	}
 	if r.Chance(1, 3) {
-		i.sourceLLA = bp(r.Bool())
+		i.sourceLLA = vfBp(r.Bool())
 	}
 	if r.Chance(1, 4) {
 		if ok() {
-			i.captivePortal = vfh.Pick(r, []string{"https://portal.example/login", "urn:ietf:params:capport:unrestricted", uriOfLen(100), uriOfLen(246)})
+			i.captivePortal = vfh.Pick(r, []string{"https://portal.example/login", "urn:ietf:params:capport:unrestricted", vfUriOfLen(100), vfUriOfLen(246)})
 		} else {
-			i.captivePortal = vfh.Pick(r, []string{uriOfLen(245), uriOfLen(246), uriOfLen(247), uriOfLen(248), uriOfLen(255), uriOfLen(256),
+			i.captivePortal = vfh.Pick(r, []string{vfUriOfLen(245), vfUriOfLen(246), vfUriOfLen(247), vfUriOfLen(248), vfUriOfLen(255), vfUriOfLen(256),
 				"http://192.0.2.1/", "https://[2001:db8::1]/x", "::1", "%zz", "http://a b/",
-				uriEscOfLen(238), uriEscOfLen(240), uriEscOfLen(241), uriEscOfLen(246)})
+				vfUriEscOfLen(238), vfUriEscOfLen(240), vfUriEscOfLen(241), vfUriEscOfLen(246)})
 		}
 	}
 	return i
 }
 
-var ifNames = []string{"eth0", "eth1", "eth2", "lan0", "wan0", "br-lan"}
+var vfIfNames = []string{"eth0", "eth1", "eth2", "lan0", "wan0", "br-lan"}
 
-func genConfig(r *vfh.Rand, valid int) gConfig {
-	var c gConfig
+func vfGenConfig(r *vfh.Rand, valid int) vfGConfig {
+	var c vfGConfig
 	// structural mistakes (no interfaces, name/names misuse, repeats, bad debug address) are drawn
 	// from the invalid share of the stream only, so that the valid stream is mostly accepted
 	bad := func(num, den int) bool { return r.Intn(100) >= valid && r.Chance(num, den) }
@@ -866,21 +866,21 @@ func genConfig(r *vfh.Rand, valid int) gConfig {
 	vfh.Shuffle(r, perm)
 	k := 0
 	for j := 0; j < n; j++ {
-		i := genIface(r, ifNames[perm[k%6]], valid, true)
+		i := vfGenIface(r, vfIfNames[perm[k%6]], valid, true)
 		k++
 		switch {
 		case r.Chance(1, 6): // names list instead of name
 			i.name = ""
 			nn := 1 + r.Intn(3)
 			for m := 0; m < nn; m++ {
-				i.names = append(i.names, ifNames[perm[k%6]])
+				i.names = append(i.names, vfIfNames[perm[k%6]])
 				k++
 			}
 			if bad(1, 2) { // repeat inside the list
 				i.names = append(i.names, i.names[0])
 			}
 		case bad(1, 4): // both
-			i.names = []string{ifNames[perm[k%6]]}
+			i.names = []string{vfIfNames[perm[k%6]]}
 		case bad(1, 4): // neither
 			i.name = ""
 			if r.Bool() {
@@ -926,7 +926,7 @@ func genConfig(r *vfh.Rand, valid int) gConfig {
 // ---------------------------------------------------------------------------------------------
 // C02
 
-func safeParse(doc string, epoch time.Time) (c *Config, err error, panicked any) {
+func vfSafeParse(doc string, epoch time.Time) (c *Config, err error, panicked any) {
 	defer func() {
 		if p := recover(); p != nil {
 			panicked = p
@@ -936,14 +936,14 @@ func safeParse(doc string, epoch time.Time) (c *Config, err error, panicked any)
 	return
 }
 
-func c02Case(t *testing.T, out *vfh.Out, c gConfig) {
-	e := &enc{t: new(vfh.Toks)}
-	e.t.S("cfg").N(debugCode(c.debugAddr)).B(c.prom).B(c.pprof).N(len(c.ifaces))
+func c02Case(t *testing.T, out *vfh.Out, c vfGConfig) {
+	e := &vfEnc{t: new(vfh.Toks)}
+	e.t.S("cfg").N(vfDebugCode(c.debugAddr)).B(c.prom).B(c.pprof).N(len(c.ifaces))
 	for _, i := range c.ifaces {
 		e.iface(i)
 	}
 	doc := c.toml()
-	cfg, err, pan := safeParse(doc, time.Unix(1700000000, 0))
+	cfg, err, pan := vfSafeParse(doc, time.Unix(1700000000, 0))
 	impl := new(vfh.Toks)
 	switch {
 	case pan != nil:
@@ -978,10 +978,10 @@ func verifC02(t *testing.T, r *vfh.Rand, out *vfh.Out) {
 		case k%20 >= 17:
 			valid = 35
 		}
-		c02Case(t, out, genConfig(r, valid))
+		c02Case(t, out, vfGenConfig(r, valid))
 	}
 	// (3) single-key boundary triples on an otherwise minimal document
-	for _, c := range boundaryConfigs() {
+	for _, c := range vfBoundaryConfigs() {
 		c02Case(t, out, c)
 	}
 	// (4) thorough: every whole-second (max_interval, min_interval) pair incl. one beyond each bound
@@ -989,17 +989,17 @@ func verifC02(t *testing.T, r *vfh.Rand, out *vfh.Out) {
 		for mx := 3; mx <= 1801; mx++ {
 			up := int(time.Duration(0.75*float64(time.Duration(mx)*time.Second)).Truncate(time.Second) / time.Second)
 			for mn := 2; mn <= up+1; mn++ {
-				i := gIface{name: "eth0", advertise: true, maxInterval: fmt.Sprintf("%ds", mx), minInterval: fmt.Sprintf("%ds", mn)}
-				c02Case(t, out, gConfig{ifaces: []gIface{i}})
+				i := vfGIface{name: "eth0", advertise: true, maxInterval: fmt.Sprintf("%ds", mx), minInterval: fmt.Sprintf("%ds", mn)}
+				c02Case(t, out, vfGConfig{ifaces: []vfGIface{i}})
 			}
-			i := gIface{name: "eth0", advertise: true, maxInterval: fmt.Sprintf("%ds", mx)}
-			c02Case(t, out, gConfig{ifaces: []gIface{i}})
+			i := vfGIface{name: "eth0", advertise: true, maxInterval: fmt.Sprintf("%ds", mx)}
+			c02Case(t, out, vfGConfig{ifaces: []vfGIface{i}})
 		}
 	}
 	// (5) malformed stream: unknown keys, wrong types, random bytes — accept/reject and panics only
-	malformed(t, r, out)
+	vfMalformed(t, r, out)
 	// (6) accepted documents with one unknown key added at every table level: must be rejected
-	unknownKeys(t, r, out)
+	vfUnknownKeys(t, r, out)
 }
 
 // unknownKeys takes accepted documents and adds one key the reference does not know — at the
@@ -1007,12 +1007,12 @@ func verifC02(t *testing.T, r *vfh.Rand, out *vfh.Out) {
 // "No unknown keys" is a documented constraint: each of these documents must be rejected.
 //
 //	unk level | ok / rej / panic        (level: 0 top, 1 a table header line)
-func unknownKeys(t *testing.T, r *vfh.Rand, out *vfh.Out) {
+func vfUnknownKeys(t *testing.T, r *vfh.Rand, out *vfh.Out) {
 	n := vfh.N(150, 4000)
 	made := 0
 	for tries := 0; made < n && tries < 20*n; tries++ {
-		doc := genConfig(r, 100).toml()
-		if _, err, pan := safeParse(doc, time.Unix(1700000000, 0)); err != nil || pan != nil {
+		doc := vfGenConfig(r, 100).toml()
+		if _, err, pan := vfSafeParse(doc, time.Unix(1700000000, 0)); err != nil || pan != nil {
 			continue // only accepted documents are interesting
 		}
 		lines := strings.Split(doc, "\n")
@@ -1024,7 +1024,7 @@ func unknownKeys(t *testing.T, r *vfh.Rand, out *vfh.Out) {
 		}
 		key := vfh.Pick(r, []string{"zz_unknown = 1", "bogus = \"x\"", "Name = \"eth9\"", "prefixes = []", "max_intervall = \"10s\""})
 		try := func(level int, d string) {
-			_, err, pan := safeParse(d, time.Unix(1700000000, 0))
+			_, err, pan := vfSafeParse(d, time.Unix(1700000000, 0))
 			impl := "ok"
 			switch {
 			case pan != nil:
@@ -1043,13 +1043,13 @@ func unknownKeys(t *testing.T, r *vfh.Rand, out *vfh.Out) {
 	}
 }
 
-func boundaryConfigs() []gConfig {
-	var cs []gConfig
-	base := func() gIface { return gIface{name: "eth0", advertise: true} }
-	add := func(f func(i *gIface)) {
+func vfBoundaryConfigs() []vfGConfig {
+	var cs []vfGConfig
+	base := func() vfGIface { return vfGIface{name: "eth0", advertise: true} }
+	add := func(f func(i *vfGIface)) {
 		i := base()
 		f(&i)
-		cs = append(cs, gConfig{ifaces: []gIface{i}})
+		cs = append(cs, vfGConfig{ifaces: []vfGIface{i}})
 	}
 	around := func(limit time.Duration) []string {
 		var out []string
@@ -1060,65 +1060,65 @@ func boundaryConfigs() []gConfig {
 	}
 	for _, s := range append(around(4*time.Second), around(1800*time.Second)...) {
 		s := s
-		add(func(i *gIface) { i.maxInterval = s })
+		add(func(i *vfGIface) { i.maxInterval = s })
 	}
 	// the smallest lifetimes: "non-zero" means 1 ns is in (zero is out), for every lifetime key
 	for _, v := range []string{"0s", "1ns", "2ns", "-1ns"} {
 		for _, p := range []string{"0s", "1ns", "2ns"} {
 			v, p := v, p
-			add(func(i *gIface) {
-				i.prefixes = []gPrefix{{prefix: "2001:db8:0:1::/64", valid: sp(v), preferred: sp(p)}}
+			add(func(i *vfGIface) {
+				i.prefixes = []vfGPrefix{{prefix: "2001:db8:0:1::/64", valid: vfSp(v), preferred: vfSp(p)}}
 			})
 		}
 		v := v
-		add(func(i *gIface) { i.routes = []gRoute{{prefix: "2001:db8:100::/48", lifetime: sp(v)}} })
-		add(func(i *gIface) { i.rdnss = []gRDNSS{{lifetime: sp(v), servers: []string{"2001:db8::53"}}} })
-		add(func(i *gIface) { i.dnssl = []gDNSSL{{lifetime: sp(v), names: []string{"example.com"}}} })
+		add(func(i *vfGIface) { i.routes = []vfGRoute{{prefix: "2001:db8:100::/48", lifetime: vfSp(v)}} })
+		add(func(i *vfGIface) { i.rdnss = []vfGRDNSS{{lifetime: vfSp(v), servers: []string{"2001:db8::53"}}} })
+		add(func(i *vfGIface) { i.dnssl = []vfGDNSSL{{lifetime: vfSp(v), names: []string{"example.com"}}} })
 	}
 	for _, mx := range []time.Duration{4 * time.Second, 8*time.Second + 999999999, 9 * time.Second, 9*time.Second - 1, 600 * time.Second, 1800 * time.Second, 4500 * time.Millisecond} {
 		mx := mx
 		up := time.Duration(0.75 * float64(mx)).Truncate(time.Second)
 		for _, s := range append(around(3*time.Second), around(up)...) {
 			s := s
-			add(func(i *gIface) { i.maxInterval = mx.String(); i.minInterval = s })
+			add(func(i *vfGIface) { i.maxInterval = mx.String(); i.minInterval = s })
 		}
-		add(func(i *gIface) { i.maxInterval = mx.String(); i.minInterval = "auto" })
+		add(func(i *vfGIface) { i.maxInterval = mx.String(); i.minInterval = "auto" })
 		for _, s := range append(append(around(mx), around(9000*time.Second)...), "0s", "", "auto", "infinite", "-1s") {
 			s := s
-			add(func(i *gIface) { i.maxInterval = mx.String(); i.defaultLifetime = sp(s) })
+			add(func(i *vfGIface) { i.maxInterval = mx.String(); i.defaultLifetime = vfSp(s) })
 		}
 	}
 	for _, s := range append(around(0), around(time.Hour)...) {
 		s := s
-		add(func(i *gIface) { i.reachable = s })
-		add(func(i *gIface) { i.retransmit = s })
+		add(func(i *vfGIface) { i.reachable = s })
+		add(func(i *vfGIface) { i.retransmit = s })
 	}
 	for _, h := range []int{-1, 0, 1, 64, 254, 255, 256} {
 		h := h
-		add(func(i *gIface) { i.hopLimit = ip(h) })
+		add(func(i *vfGIface) { i.hopLimit = vfIp(h) })
 	}
 	for _, m := range []int{-1, 0, 1, 65535, 65536, 65537} {
 		m := m
-		add(func(i *gIface) { i.mtu = m })
+		add(func(i *vfGIface) { i.mtu = m })
 	}
 	lifetimes := append(append(around(0), around(ndp.Infinity)...), "infinite", "auto", "", "9223372036854775807ns", "-9223372036854775808ns", "500ms", "1ns")
 	for _, s := range lifetimes {
 		s := s
 		for _, dep := range []bool{false, true} {
 			dep := dep
-			add(func(i *gIface) { i.prefixes = []gPrefix{{prefix: "2001:db8::/64", valid: sp(s), deprecated: dep}} })
-			add(func(i *gIface) {
-				i.prefixes = []gPrefix{{prefix: "2001:db8::/64", valid: sp("infinite"), preferred: sp(s), deprecated: dep}}
+			add(func(i *vfGIface) { i.prefixes = []vfGPrefix{{prefix: "2001:db8::/64", valid: vfSp(s), deprecated: dep}} })
+			add(func(i *vfGIface) {
+				i.prefixes = []vfGPrefix{{prefix: "2001:db8::/64", valid: vfSp("infinite"), preferred: vfSp(s), deprecated: dep}}
 			})
-			add(func(i *gIface) { i.routes = []gRoute{{prefix: "2001:db8:1::/48", lifetime: sp(s), deprecated: dep}} })
+			add(func(i *vfGIface) { i.routes = []vfGRoute{{prefix: "2001:db8:1::/48", lifetime: vfSp(s), deprecated: dep}} })
 		}
-		add(func(i *gIface) { i.rdnss = []gRDNSS{{lifetime: sp(s), servers: []string{"2001:db8::53"}}} })
-		add(func(i *gIface) { i.dnssl = []gDNSSL{{lifetime: sp(s), names: []string{"example.com"}}} })
+		add(func(i *vfGIface) { i.rdnss = []vfGRDNSS{{lifetime: vfSp(s), servers: []string{"2001:db8::53"}}} })
+		add(func(i *vfGIface) { i.dnssl = []vfGDNSSL{{lifetime: vfSp(s), names: []string{"example.com"}}} })
 	}
-	for _, p := range append(append([]string{}, prefixPool...), prefixBad...) {
+	for _, p := range append(append([]string{}, vfPrefixPool...), vfPrefixBad...) {
 		p := p
-		add(func(i *gIface) { i.prefixes = []gPrefix{{prefix: p}} })
-		add(func(i *gIface) { i.routes = []gRoute{{prefix: p}} })
+		add(func(i *vfGIface) { i.prefixes = []vfGPrefix{{prefix: p}} })
+		add(func(i *vfGIface) { i.routes = []vfGRoute{{prefix: p}} })
 	}
 	// overlaps, both orders
 	pairs := [][2]string{{"2001:db8::/48", "2001:db8::/64"}, {"2001:db8::/64", "2001:db8::/64"}, {"2001:db8::/64", "2001:db8:0:1::/64"},
@@ -1131,69 +1131,69 @@ func boundaryConfigs() []gConfig {
 				a, b = b, a
 			}
 			if strings.HasSuffix(a, "/0") || strings.HasSuffix(b, "/0") {
-				add(func(i *gIface) { i.routes = []gRoute{{prefix: a}, {prefix: b}} })
+				add(func(i *vfGIface) { i.routes = []vfGRoute{{prefix: a}, {prefix: b}} })
 				continue
 			}
-			add(func(i *gIface) { i.prefixes = []gPrefix{{prefix: a}, {prefix: b}} })
-			add(func(i *gIface) { i.routes = []gRoute{{prefix: a}, {prefix: b}} })
+			add(func(i *vfGIface) { i.prefixes = []vfGPrefix{{prefix: a}, {prefix: b}} })
+			add(func(i *vfGIface) { i.routes = []vfGRoute{{prefix: a}, {prefix: b}} })
 		}
 	}
 	// PREF64 lifetime = 3 x max_interval rounded up to 8 s: fractional and boundary intervals
 	for _, mx := range []string{"4s", "5s", "5500ms", "8s", "8100ms", "8.000000001s", "10.6s", "16s", "600s", "1799.5s", "1800s", "2666ms", "2667ms",
 		"10666666667ns", "10666666666ns", "10666666668ns", "5333333334ns", "5333333333ns"} { // 3 x max = a multiple of 8 s + 1 ns, - 2 ns, + 4 ns; 16 s + 2 ns, 16 s - 1 ns
 		mx := mx
-		add(func(i *gIface) { i.maxInterval = mx; i.pref64 = []*string{nil} })
+		add(func(i *vfGIface) { i.maxInterval = mx; i.pref64 = []*string{nil} })
 	}
-	for _, p := range append(append([]string{}, pref64Pool...), pref64Bad...) {
+	for _, p := range append(append([]string{}, vfPref64Pool...), vfPref64Bad...) {
 		p := p
-		add(func(i *gIface) { i.pref64 = []*string{sp(p)} })
+		add(func(i *vfGIface) { i.pref64 = []*string{vfSp(p)} })
 	}
 	for l := 240; l <= 257; l++ {
 		l := l
-		add(func(i *gIface) { i.captivePortal = uriOfLen(l) })
-		add(func(i *gIface) { i.captivePortal = uriEscOfLen(l - 8) }) // what is encoded is longer than what is written
+		add(func(i *vfGIface) { i.captivePortal = vfUriOfLen(l) })
+		add(func(i *vfGIface) { i.captivePortal = vfUriEscOfLen(l - 8) }) // what is encoded is longer than what is written
 	}
 	for _, sv := range [][]string{{"::", "::"}, {"2001:db8::53", "2001:db8::53"}, {"::", "2001:db8::53"}, {"8.8.8.8"}, {"::ffff:8.8.8.8"}, {}, {"2001:db8::54", "2001:db8::53", "fd00::1"}} {
 		sv := sv
-		add(func(i *gIface) { i.rdnss = []gRDNSS{{servers: sv}} })
+		add(func(i *vfGIface) { i.rdnss = []vfGRDNSS{{servers: sv}} })
 	}
 	for _, dn := range [][]string{{}, {"a.example", "a.example"}, {"a.example"}, {"b.example", "a.example"}} {
 		dn := dn
-		add(func(i *gIface) { i.dnssl = []gDNSSL{{names: dn}} })
+		add(func(i *vfGIface) { i.dnssl = []vfGDNSSL{{names: dn}} })
 	}
 	// name / names / monitor combinations
 	cs = append(cs,
-		gConfig{},
-		gConfig{ifaces: []gIface{{advertise: true}}},
-		gConfig{ifaces: []gIface{{name: "eth0", names: []string{"eth1"}, advertise: true}}},
-		gConfig{ifaces: []gIface{{names: []string{}, advertise: true}}},
-		gConfig{ifaces: []gIface{{names: []string{""}, advertise: true}}},
-		gConfig{ifaces: []gIface{{names: []string{"eth0", "eth0"}, advertise: true}}},
-		gConfig{ifaces: []gIface{{names: []string{"eth0", "eth1"}, advertise: true}, {name: "eth1", monitor: true}}},
-		gConfig{ifaces: []gIface{{name: "eth0", advertise: true}, {name: "eth0", monitor: true}}},
-		gConfig{ifaces: []gIface{{name: "eth0", advertise: true, monitor: true}}},
-		gConfig{ifaces: []gIface{{name: "eth0", monitor: true, maxInterval: "1s", mtu: -5, prefixes: []gPrefix{{prefix: "bogus"}}}}},
-		gConfig{ifaces: []gIface{{name: "eth0"}}},
-		gConfig{ifaces: []gIface{{name: "eth0", advertise: true}}, debugAddr: "x:y:z"},
+		vfGConfig{},
+		vfGConfig{ifaces: []vfGIface{{advertise: true}}},
+		vfGConfig{ifaces: []vfGIface{{name: "eth0", names: []string{"eth1"}, advertise: true}}},
+		vfGConfig{ifaces: []vfGIface{{names: []string{}, advertise: true}}},
+		vfGConfig{ifaces: []vfGIface{{names: []string{""}, advertise: true}}},
+		vfGConfig{ifaces: []vfGIface{{names: []string{"eth0", "eth0"}, advertise: true}}},
+		vfGConfig{ifaces: []vfGIface{{names: []string{"eth0", "eth1"}, advertise: true}, {name: "eth1", monitor: true}}},
+		vfGConfig{ifaces: []vfGIface{{name: "eth0", advertise: true}, {name: "eth0", monitor: true}}},
+		vfGConfig{ifaces: []vfGIface{{name: "eth0", advertise: true, monitor: true}}},
+		vfGConfig{ifaces: []vfGIface{{name: "eth0", monitor: true, maxInterval: "1s", mtu: -5, prefixes: []vfGPrefix{{prefix: "bogus"}}}}},
+		vfGConfig{ifaces: []vfGIface{{name: "eth0"}}},
+		vfGConfig{ifaces: []vfGIface{{name: "eth0", advertise: true}}, debugAddr: "x:y:z"},
 		// long documents: 70 KiB / 300 KiB of comments before the first stanza, or between a valid
 		// stanza and a second one that is valid / repeats the name / has a bad interval
-		gConfig{ifaces: []gIface{{name: "eth0", advertise: true}}, padBefore: 70},
-		gConfig{ifaces: []gIface{{name: "eth0", advertise: true}}, padBefore: 300},
-		gConfig{ifaces: []gIface{{name: "eth0", advertise: true}, {name: "eth1", advertise: true}}, padBetween: 70},
-		gConfig{ifaces: []gIface{{name: "eth0", advertise: true}, {name: "eth0", advertise: true}}, padBetween: 70},
-		gConfig{ifaces: []gIface{{name: "eth0", advertise: true}, {name: "eth1", advertise: true, maxInterval: "1s"}}, padBetween: 130},
-		gConfig{ifaces: []gIface{{name: "eth0", advertise: true}, {name: "eth1", monitor: true, advertise: true}}, padBefore: 20, padBetween: 50},
-		gConfig{ifaces: []gIface{{name: "eth0", advertise: true}}, debugAddr: "localhost:notaport"},
-		gConfig{ifaces: []gIface{{name: "eth0", advertise: true}}, debugAddr: "[::1]:94e30"},
-		gConfig{ifaces: []gIface{{name: "eth0", advertise: true}}, debugAddr: ":9430", prom: true, pprof: true},
-		gConfig{ifaces: []gIface{{name: "eth0", advertise: true}}, prom: true},
+		vfGConfig{ifaces: []vfGIface{{name: "eth0", advertise: true}}, padBefore: 70},
+		vfGConfig{ifaces: []vfGIface{{name: "eth0", advertise: true}}, padBefore: 300},
+		vfGConfig{ifaces: []vfGIface{{name: "eth0", advertise: true}, {name: "eth1", advertise: true}}, padBetween: 70},
+		vfGConfig{ifaces: []vfGIface{{name: "eth0", advertise: true}, {name: "eth0", advertise: true}}, padBetween: 70},
+		vfGConfig{ifaces: []vfGIface{{name: "eth0", advertise: true}, {name: "eth1", advertise: true, maxInterval: "1s"}}, padBetween: 130},
+		vfGConfig{ifaces: []vfGIface{{name: "eth0", advertise: true}, {name: "eth1", monitor: true, advertise: true}}, padBefore: 20, padBetween: 50},
+		vfGConfig{ifaces: []vfGIface{{name: "eth0", advertise: true}}, debugAddr: "localhost:notaport"},
+		vfGConfig{ifaces: []vfGIface{{name: "eth0", advertise: true}}, debugAddr: "[::1]:94e30"},
+		vfGConfig{ifaces: []vfGIface{{name: "eth0", advertise: true}}, debugAddr: ":9430", prom: true, pprof: true},
+		vfGConfig{ifaces: []vfGIface{{name: "eth0", advertise: true}}, prom: true},
 	)
 	return cs
 }
 
 // malformed emits documents outside the key grammar.  The model cannot see them (they never
 // get past TOML decoding), so the case line carries only the expected decision: rejected.
-func malformed(t *testing.T, r *vfh.Rand, out *vfh.Out) {
+func vfMalformed(t *testing.T, r *vfh.Rand, out *vfh.Out) {
 	docs := []string{
 		"", "[[interfaces]]\nname = 5\n", "[[interfaces]]\nname = \"eth0\"\nbogus = 1\n",
 		"[[interfaces]]\nname = \"eth0\"\n[[interfaces.prefix]]\nbogus = true\n",
@@ -1205,7 +1205,7 @@ func malformed(t *testing.T, r *vfh.Rand, out *vfh.Out) {
 		"[[interfaces]]\nname = \"eth0\"\nsource_lla = 1\n", "[[interfaces]]\nname = \"eth0\"\n[interfaces.prefix]\nprefix = \"::/64\"\n",
 	}
 	n := vfh.N(2000, 100000)
-	valid := genConfig(vfh.NewRand(7), 95).toml()
+	valid := vfGenConfig(vfh.NewRand(7), 95).toml()
 	for k := 0; k < n; k++ {
 		switch r.Intn(3) {
 		case 0: // random bytes
@@ -1239,7 +1239,7 @@ func malformed(t *testing.T, r *vfh.Rand, out *vfh.Out) {
 		}
 	}
 	for _, d := range docs {
-		_, err, pan := safeParse(d, time.Unix(1700000000, 0))
+		_, err, pan := vfSafeParse(d, time.Unix(1700000000, 0))
 		impl := "ok"
 		switch {
 		case pan != nil:
@@ -1255,7 +1255,7 @@ func malformed(t *testing.T, r *vfh.Rand, out *vfh.Out) {
 // ---------------------------------------------------------------------------------------------
 // C01 / C03 / C04: RA generation from an accepted configuration and an injected system state
 
-type sysState struct {
+type vfSysState struct {
 	addrsFail, routesFail bool
 	addrs                 []system.IP
 	routes                []netip.Prefix
@@ -1263,8 +1263,8 @@ type sysState struct {
 	now, epoch            time.Time
 }
 
-func genSys(r *vfh.Rand, epoch time.Time) sysState {
-	s := sysState{epoch: epoch}
+func vfGenSys(r *vfh.Rand, epoch time.Time) vfSysState {
+	s := vfSysState{epoch: epoch}
 	s.addrsFail, s.routesFail = r.Chance(1, 25), r.Chance(1, 25)
 	hosts := []string{"fd00:0:0:1::1/64", "fd00:0:0:1::2/64", "2001:db8:0:1::1/64", "2001:db8:0:1:211:22ff:fe33:4455/64", "2001:db8:0:2::1/64",
 		"fe80::1/64", "2001:db8:5::1/48", "2600:1::7/64", "fd00:0:0:9::1/64", "10.0.0.1/24"}
@@ -1299,7 +1299,7 @@ func genSys(r *vfh.Rand, epoch time.Time) sysState {
 	return s
 }
 
-func (s sysState) toks(t *vfh.Toks) {
+func (s vfSysState) toks(t *vfh.Toks) {
 	if s.addrsFail {
 		t.S("F")
 	} else {
@@ -1320,12 +1320,12 @@ func (s sysState) toks(t *vfh.Toks) {
 		t.S("N")
 	} else {
 		t.S("M")
-		macToks(t, s.mac)
+		vfMacToks(t, s.mac)
 	}
 	t.I(s.now.UnixNano()).I(s.epoch.UnixNano())
 }
 
-func (s sysState) inject(ifi Interface) {
+func (s vfSysState) inject(ifi Interface) {
 	errf := fmt.Errorf("injected failure")
 	for _, p := range ifi.Plugins {
 		switch p := p.(type) {
@@ -1364,7 +1364,7 @@ func (s sysState) inject(ifi Interface) {
 
 // snapshot renders everything observable of the parsed configuration (for "never alters the
 // configuration").
-func snapshot(ifi Interface) string {
+func vfSnapshot(ifi Interface) string {
 	var sb strings.Builder
 	fmt.Fprintf(&sb, "%s %v %v %v %v %v %v %v %v %v %v %v %v %v|", ifi.Name, ifi.Monitor, ifi.Advertise, ifi.Verbose, ifi.MinInterval, ifi.MaxInterval,
 		ifi.Managed, ifi.OtherConfig, ifi.ReachableTime, ifi.RetransmitTimer, ifi.HopLimit, ifi.DefaultLifetime, ifi.UnicastOnly, ifi.Preference)
@@ -1392,10 +1392,10 @@ func snapshot(ifi Interface) string {
 }
 
 // raCase runs one (stanza, system state, forwarding) case through Parse and RouterAdvertisement.
-func raCase(t *testing.T, out *vfh.Out, op string, gi gIface, sys sysState, fw bool) {
-	c := gConfig{ifaces: []gIface{gi}}
-	cfg, err, pan := safeParse(c.toml(), sys.epoch)
-	e := &enc{t: new(vfh.Toks)}
+func vfRaCase(t *testing.T, out *vfh.Out, op string, gi vfGIface, sys vfSysState, fw bool) {
+	c := vfGConfig{ifaces: []vfGIface{gi}}
+	cfg, err, pan := vfSafeParse(c.toml(), sys.epoch)
+	e := &vfEnc{t: new(vfh.Toks)}
 	e.t.S(op)
 	e.iface(gi)
 	sys.toks(e.t)
@@ -1409,7 +1409,7 @@ func raCase(t *testing.T, out *vfh.Out, op string, gi gIface, sys sysState, fw b
 	default:
 		ifi := cfg.Interfaces[0]
 		sys.inject(ifi)
-		raImpl(t, e, impl, ifi, fw, op)
+		vfRaImpl(t, e, impl, ifi, fw, op)
 	}
 	out.Line(e.t.String(), impl.String())
 }
@@ -1419,62 +1419,62 @@ func raCase(t *testing.T, out *vfh.Out, op string, gi gIface, sys sysState, fw b
 // is that interface's business alone (C13, C14, C15), whatever the others of the group hold.
 func verifGroups(t *testing.T, r *vfh.Rand, out *vfh.Out) {
 	for k := vfh.N(500, 12000); k > 0; k-- {
-		gi := genIface(r, "eth0", 99, false)
+		gi := vfGenIface(r, "eth0", 99, false)
 		gi.monitor, gi.advertise = false, true
 		// make sure the wildcards are there
-		gi.prefixes = append([]gPrefix{{prefix: "::/64"}}, gi.prefixes...)
-		gi.rdnss = append([]gRDNSS{{servers: []string{"::"}}}, gi.rdnss...)
+		gi.prefixes = append([]vfGPrefix{{prefix: "::/64"}}, gi.prefixes...)
+		gi.rdnss = append([]vfGRDNSS{{servers: []string{"::"}}}, gi.rdnss...)
 		if r.Bool() {
-			gi.routes = append([]gRoute{{prefix: "::/0"}}, gi.routes...)
+			gi.routes = append([]vfGRoute{{prefix: "::/0"}}, gi.routes...)
 		}
 		epoch := time.Unix(1700000000+r.Range(0, 1000000), r.Range(0, 999999999))
 		names := []string{"eth0", "eth1", "eth2"}[:2+r.Intn(2)]
-		var syss []sysState
+		var syss []vfSysState
 		for range names {
-			s := genSys(r, epoch)
+			s := vfGenSys(r, epoch)
 			s.addrsFail, s.routesFail = false, false
 			syss = append(syss, s)
 		}
-		raGroupCase(t, out, "ra1", gi, names, syss, r.Chance(2, 3))
+		vfRaGroupCase(t, out, "ra1", gi, names, syss, r.Chance(2, 3))
 	}
 }
 
 // raCorpus: fixed cases that always run first (witnesses of recorded findings, boundaries).
-func raCorpus(t *testing.T, out *vfh.Out, op string) {
+func vfRaCorpus(t *testing.T, out *vfh.Out, op string) {
 	epoch := time.Unix(1700000000, 0)
 	mac := net.HardwareAddr{2, 0, 0, 0, 0, 1}
 	// K-1: a deprecated route 1 ns after the epoch: remaining lifetime = L - 1 ns with L >= 2^22 s
-	raCase(t, out, op, gIface{name: "eth0", advertise: true,
-		routes: []gRoute{{prefix: "2001:db8:100::/48", lifetime: sp("1038016h"), deprecated: true}}},
-		sysState{mac: mac, epoch: epoch, now: epoch.Add(1)}, true)
+	vfRaCase(t, out, op, vfGIface{name: "eth0", advertise: true,
+		routes: []vfGRoute{{prefix: "2001:db8:100::/48", lifetime: vfSp("1038016h"), deprecated: true}}},
+		vfSysState{mac: mac, epoch: epoch, now: epoch.Add(1)}, true)
 	// the reference stanza kinds, forwarding on and off
-	full := gIface{name: "eth0", advertise: true, managed: true, otherConfig: true, hopLimit: ip(64), mtu: 1500,
-		reachable: "30s", retransmit: "1s", defaultLifetime: sp("30m"), preference: "high",
-		prefixes:      []gPrefix{{prefix: "::/64"}, {prefix: "2001:db8:7::/64", valid: sp("1h"), preferred: sp("30m"), deprecated: true}},
-		routes:        []gRoute{{prefix: "::/0", preference: "low"}, {prefix: "2001:db8:ffff::/48", lifetime: sp("infinite")}},
-		rdnss:         []gRDNSS{{servers: []string{"::", "2001:db8::53"}}, {lifetime: sp("10m"), servers: []string{"fd00::53", "2001:db8::54"}}},
-		dnssl:         []gDNSSL{{names: []string{"example.com", "lan.example.com"}}},
+	full := vfGIface{name: "eth0", advertise: true, managed: true, otherConfig: true, hopLimit: vfIp(64), mtu: 1500,
+		reachable: "30s", retransmit: "1s", defaultLifetime: vfSp("30m"), preference: "high",
+		prefixes:      []vfGPrefix{{prefix: "::/64"}, {prefix: "2001:db8:7::/64", valid: vfSp("1h"), preferred: vfSp("30m"), deprecated: true}},
+		routes:        []vfGRoute{{prefix: "::/0", preference: "low"}, {prefix: "2001:db8:ffff::/48", lifetime: vfSp("infinite")}},
+		rdnss:         []vfGRDNSS{{servers: []string{"::", "2001:db8::53"}}, {lifetime: vfSp("10m"), servers: []string{"fd00::53", "2001:db8::54"}}},
+		dnssl:         []vfGDNSSL{{names: []string{"example.com", "lan.example.com"}}},
 		captivePortal: "https://portal.example/login",
-		pref64:        []*string{nil, sp("2001:db8:64::/56")},
+		pref64:        []*string{nil, vfSp("2001:db8:64::/56")},
 	}
-	sys := sysState{mac: mac, epoch: epoch, now: epoch.Add(45 * time.Minute),
+	sys := vfSysState{mac: mac, epoch: epoch, now: epoch.Add(45 * time.Minute),
 		addrs: []system.IP{{Address: netip.MustParsePrefix("2001:db8:0:1::1/64"), ValidForever: true}, {Address: netip.MustParsePrefix("fd00:0:0:1::1/64")},
 			{Address: netip.MustParsePrefix("fe80::1/64")}},
 		routes: []netip.Prefix{netip.MustParsePrefix("2001:db8:f00::/48"), netip.MustParsePrefix("2001:db8:f00:1::/64")}}
-	raCase(t, out, op, full, sys, true)
-	raCase(t, out, op, full, sys, false)
+	vfRaCase(t, out, op, full, sys, true)
+	vfRaCase(t, out, op, full, sys, false)
 	sys.mac = nil
 	sys.addrsFail = true
-	raCase(t, out, op, full, sys, true)
+	vfRaCase(t, out, op, full, sys, true)
 }
 
 // raGroupCase: one stanza shared by several interfaces through `names`.  Every interface is given
 // its OWN system state (as Prepare does when each advertiser initialises its interface, in order),
 // and only then are the RAs built: state of one interface must never show up in another's RA.
-func raGroupCase(t *testing.T, out *vfh.Out, op string, gi gIface, names []string, syss []sysState, fw bool) {
+func vfRaGroupCase(t *testing.T, out *vfh.Out, op string, gi vfGIface, names []string, syss []vfSysState, fw bool) {
 	g := gi
 	g.name, g.names = "", names
-	cfg, err, pan := safeParse(gConfig{ifaces: []gIface{g}}.toml(), syss[0].epoch)
+	cfg, err, pan := vfSafeParse(vfGConfig{ifaces: []vfGIface{g}}.toml(), syss[0].epoch)
 	if pan != nil || err != nil || len(cfg.Interfaces) != len(names) {
 		// not accepted: the single-interface form covers rejection
 		return
@@ -1485,34 +1485,34 @@ func raGroupCase(t *testing.T, out *vfh.Out, op string, gi gIface, names []strin
 	for k, name := range names {
 		one := gi
 		one.name, one.names = name, nil
-		e := &enc{t: new(vfh.Toks)}
+		e := &vfEnc{t: new(vfh.Toks)}
 		// intern the names in document order so that ids agree with the single-interface encoding
 		e.t.S(op)
 		e.iface(one)
 		syss[k].toks(e.t)
 		e.t.B(fw)
 		impl := new(vfh.Toks)
-		raImpl(t, e, impl, cfg.Interfaces[k], fw, op)
+		vfRaImpl(t, e, impl, cfg.Interfaces[k], fw, op)
 		out.Line(e.t.String(), impl.String())
 	}
 }
 
 func verifRA(t *testing.T, r *vfh.Rand, out *vfh.Out, op string) {
-	raCorpus(t, out, op)
+	vfRaCorpus(t, out, op)
 	// stanzas shared by two or three interfaces (`names`), each interface with its own state
 	ng := vfh.N(600, 15000)
 	for k := 0; k < ng; k++ {
-		gi := genIface(r, "eth0", 99, false)
+		gi := vfGenIface(r, "eth0", 99, false)
 		gi.monitor, gi.advertise = false, true
 		epoch := time.Unix(1700000000+r.Range(0, 1000000), r.Range(0, 999999999))
 		names := []string{"eth0", "eth1", "eth2"}[:2+r.Intn(2)]
-		var syss []sysState
+		var syss []vfSysState
 		for range names {
-			s := genSys(r, epoch)
+			s := vfGenSys(r, epoch)
 			s.addrsFail, s.routesFail = false, false
 			syss = append(syss, s)
 		}
-		raGroupCase(t, out, op, gi, names, syss, r.Chance(2, 3))
+		vfRaGroupCase(t, out, op, gi, names, syss, r.Chance(2, 3))
 	}
 	n := vfh.N(6000, 150000)
 	for k := 0; k < n; k++ {
@@ -1520,16 +1520,16 @@ func verifRA(t *testing.T, r *vfh.Rand, out *vfh.Out, op string) {
 		if op == "ra3" && k%3 == 0 {
 			valid = 75 // more boundary durations for the wire-range property
 		}
-		gi := genIface(r, "eth0", valid, false)
+		gi := vfGenIface(r, "eth0", valid, false)
 		gi.monitor = false
 		gi.advertise = true
 		epoch := time.Unix(1700000000+r.Range(0, 1000000), r.Range(0, 999999999))
-		c := gConfig{ifaces: []gIface{gi}}
-		cfg, err, pan := safeParse(c.toml(), epoch)
-		e := &enc{t: new(vfh.Toks)}
+		c := vfGConfig{ifaces: []vfGIface{gi}}
+		cfg, err, pan := vfSafeParse(c.toml(), epoch)
+		e := &vfEnc{t: new(vfh.Toks)}
 		e.t.S(op)
 		e.iface(gi)
-		sys := genSys(r, epoch)
+		sys := vfGenSys(r, epoch)
 		sys.toks(e.t)
 		fw := r.Chance(2, 3)
 		e.t.B(fw)
@@ -1542,7 +1542,7 @@ func verifRA(t *testing.T, r *vfh.Rand, out *vfh.Out, op string) {
 		default:
 			ifi := cfg.Interfaces[0]
 			sys.inject(ifi)
-			raImpl(t, e, impl, ifi, fw, op)
+			vfRaImpl(t, e, impl, ifi, fw, op)
 		}
 		out.Line(e.t.String(), impl.String())
 		// one time in three the SAME parsed configuration is then asked again under one or two
@@ -1551,9 +1551,9 @@ func verifRA(t *testing.T, r *vfh.Rand, out *vfh.Out, op string) {
 		// is remembered from an earlier build
 		if pan == nil && err == nil && k%3 == 0 {
 			for again := 1 + r.Intn(2); again > 0; again-- {
-				sys2 := genSys(r, epoch)
+				sys2 := vfGenSys(r, epoch)
 				fw2 := r.Bool()
-				e2 := &enc{t: new(vfh.Toks)}
+				e2 := &vfEnc{t: new(vfh.Toks)}
 				e2.t.S(op)
 				e2.iface(gi)
 				sys2.toks(e2.t)
@@ -1561,15 +1561,15 @@ func verifRA(t *testing.T, r *vfh.Rand, out *vfh.Out, op string) {
 				impl2 := new(vfh.Toks)
 				ifi := cfg.Interfaces[0]
 				sys2.inject(ifi)
-				raImpl(t, e2, impl2, ifi, fw2, op)
+				vfRaImpl(t, e2, impl2, ifi, fw2, op)
 				out.Line(e2.t.String(), impl2.String())
 			}
 		}
 	}
 }
 
-func raImpl(t *testing.T, e *enc, impl *vfh.Toks, ifi Interface, fw bool, op string) {
-	before := snapshot(ifi)
+func vfRaImpl(t *testing.T, e *vfEnc, impl *vfh.Toks, ifi Interface, fw bool, op string) {
+	before := vfSnapshot(ifi)
 	ra, ms, err := ifi.RouterAdvertisement(fw)
 	if err != nil {
 		impl.S("err")
@@ -1583,7 +1583,7 @@ func raImpl(t *testing.T, e *enc, impl *vfh.Toks, ifi Interface, fw bool, op str
 			return
 		}
 	}
-	if snapshot(ifi) != before {
+	if vfSnapshot(ifi) != before {
 		impl.S("config-mutated")
 		return
 	}
@@ -1615,7 +1615,7 @@ func raImpl(t *testing.T, e *enc, impl *vfh.Toks, ifi Interface, fw bool, op str
 		impl.S("parse-err")
 		return
 	}
-	fixRouteInfoPrefixes(b, ra2)
+	vfFixRouteInfoPrefixes(b, ra2)
 	impl.S("wire")
 	e.ra(impl, ra2)
 }
@@ -1625,7 +1625,7 @@ func raImpl(t *testing.T, e *enc, impl *vfh.Toks, ifi Interface, fw bool, op str
 // drops the final partial byte of a prefix whose length is not a multiple of 8 (2000::/3
 // decodes as ::/3) although the bytes on the wire are correct.  The property is about what
 // CoreRAD puts on the wire, so the observation is taken from the bytes.
-func fixRouteInfoPrefixes(b []byte, ra *ndp.RouterAdvertisement) {
+func vfFixRouteInfoPrefixes(b []byte, ra *ndp.RouterAdvertisement) {
 	var prefixes []netip.Addr
 	for off := 16; off+2 <= len(b); {
 		typ, l := b[off], int(b[off+1])*8
@@ -1666,8 +1666,8 @@ func verifC14Parsed(t *testing.T, r *vfh.Rand, out *vfh.Out) {
 		// the wildcard at a random position
 		pos := r.Intn(len(servers) + 1)
 		servers = append(servers[:pos], append([]string{"::"}, servers[pos:]...)...)
-		gi := gIface{name: "eth0", advertise: true, rdnss: []gRDNSS{{servers: servers}}}
-		cfg, err, pan := safeParse(gConfig{ifaces: []gIface{gi}}.toml(), time.Unix(1700000000, 0))
+		gi := vfGIface{name: "eth0", advertise: true, rdnss: []vfGRDNSS{{servers: servers}}}
+		cfg, err, pan := vfSafeParse(vfGConfig{ifaces: []vfGIface{gi}}.toml(), time.Unix(1700000000, 0))
 		if err != nil || pan != nil {
 			t.Fatalf("RDNSS stanza %v rejected: %v %v", servers, err, pan)
 		}
@@ -1681,7 +1681,7 @@ func verifC14Parsed(t *testing.T, r *vfh.Rand, out *vfh.Out) {
 		static := append([]netip.Addr(nil), rd.Servers...)
 		// the interface's addresses change between builds
 		for build := 0; build < 3; build++ {
-			sys := genSys(r, time.Unix(1700000000, 0))
+			sys := vfGenSys(r, time.Unix(1700000000, 0))
 			addrs := sys.addrs
 			rd.Addrs = func() ([]system.IP, error) { return addrs, nil }
 			c := new(vfh.Toks).S("wd").N(len(static))
@@ -1722,19 +1722,19 @@ func verifC14Parsed(t *testing.T, r *vfh.Rand, out *vfh.Out) {
 // finite lifetimes (and preferred <= valid): every combination of the lifetime spellings for
 // deprecated and non-deprecated stanzas, judged by the configuration model (`cfg`).
 func verifC16Parsed(t *testing.T, r *vfh.Rand, out *vfh.Out) {
-	lts := []*string{nil, sp(""), sp("auto"), sp("infinite"), sp("1h"), sp("30m"), sp("4294967295s"), sp("4294967294s"), sp("0s"), sp("1s")}
+	lts := []*string{nil, vfSp(""), vfSp("auto"), vfSp("infinite"), vfSp("1h"), vfSp("30m"), vfSp("4294967295s"), vfSp("4294967294s"), vfSp("0s"), vfSp("1s")}
 	for _, dep := range []bool{true, false} {
 		for _, v := range lts {
 			for _, pr := range lts {
-				i := gIface{name: "eth0", advertise: true, prefixes: []gPrefix{{prefix: "2001:db8::/64", valid: v, preferred: pr, deprecated: dep}}}
-				c02Case(t, out, gConfig{ifaces: []gIface{i}})
-				i = gIface{name: "eth0", advertise: true, prefixes: []gPrefix{{prefix: "::/64", valid: v, preferred: pr, deprecated: dep}}}
-				c02Case(t, out, gConfig{ifaces: []gIface{i}})
+				i := vfGIface{name: "eth0", advertise: true, prefixes: []vfGPrefix{{prefix: "2001:db8::/64", valid: v, preferred: pr, deprecated: dep}}}
+				c02Case(t, out, vfGConfig{ifaces: []vfGIface{i}})
+				i = vfGIface{name: "eth0", advertise: true, prefixes: []vfGPrefix{{prefix: "::/64", valid: v, preferred: pr, deprecated: dep}}}
+				c02Case(t, out, vfGConfig{ifaces: []vfGIface{i}})
 			}
-			i := gIface{name: "eth0", advertise: true, routes: []gRoute{{prefix: "2001:db8:1::/48", lifetime: v, deprecated: dep}}}
-			c02Case(t, out, gConfig{ifaces: []gIface{i}})
-			i = gIface{name: "eth0", advertise: true, routes: []gRoute{{prefix: "::/0", lifetime: v, deprecated: dep}}}
-			c02Case(t, out, gConfig{ifaces: []gIface{i}})
+			i := vfGIface{name: "eth0", advertise: true, routes: []vfGRoute{{prefix: "2001:db8:1::/48", lifetime: v, deprecated: dep}}}
+			c02Case(t, out, vfGConfig{ifaces: []vfGIface{i}})
+			i = vfGIface{name: "eth0", advertise: true, routes: []vfGRoute{{prefix: "::/0", lifetime: v, deprecated: dep}}}
+			c02Case(t, out, vfGConfig{ifaces: []vfGIface{i}})
 		}
 	}
 	_ = r
